@@ -148,9 +148,10 @@ class ParserModel:
         return ALine(lid, rn, dict(cache[ck]))
 
     # ---- run the loop over abstract lines
-    def lower(self, lines, start_env=None):
+    def lower(self, lines, start_env=None, fail_parse=None):
         """-> ('ok', script ADict, interp) | ('error', RaiseSig, interp)"""
         it = Interp(self.mod, self.rule)
+        it.fail_parse = fail_parse
         env = {'start_line_number': Sym('start'), 'script_text': Sym('script_text')}
         for a in self.func.args.args:
             env.setdefault(a.arg, Sym(a.arg))
